@@ -142,14 +142,7 @@ pub enum KeeperError {
 //@ end
 
 impl TraceSlider {
-    // specs: verbatim from slider.rs
-    pub closed spec fn wf(&self) -> bool { self.trace.slen() <= u32::MAX && self.seen_elements <= self.subtrace_len }
-    pub closed spec fn pos(&self) -> nat { self.position.0 as nat }
-    pub closed spec fn slen(&self) -> nat { self.subtrace_len as nat }
-    pub closed spec fn seen(&self) -> nat { self.seen_elements as nat }
-    pub closed spec fn tlen(&self) -> nat { self.trace.slen() }
-    // in-window invariant: everything the slider may still hand out lies inside the trace
-    pub open spec fn in_window(&self) -> bool { self.pos() + (self.slen() - self.seen()) <= self.tlen() }
+//@ import-spec slider :: TraceSlider::wf TraceSlider::pos TraceSlider::slen TraceSlider::seen TraceSlider::tlen TraceSlider::in_window
 //@ stub slider :: TraceSlider::set_subtrace_len
 }
 type KeeperResult<T> = Result<T, KeeperError>;
